@@ -112,6 +112,17 @@ CLAIMED = {
                 "the four styles and word preservation through the admonition pre-processor and python-markdown are covered only by bounded stand-ins (20 programs, 390 bodies).",
         "note": "Partial: collection mechanisms proved; attachment and rendering bounded.",
     },
+    "C19": {
+        "engines": ["S", "Bd"],
+        "technique": "contract-based verification of call-site preconditions: every file-system mutating call of the package (enumerated from the AST) must target a path under "
+                     "output_dir / graph_dir; discharged by a path algebra over the function-local state with attribute contracts (checked in the initialisers) and "
+                     "parameter contracts (checked at every caller); structural obligations on the refusal check",
+        "text": "Every mutating call site (59 obligations incl. attribute, parameter and outfile contracts) is shown to target a path under the output or graph directory, given the "
+                "assumed component contracts (idents, get_dir(), page paths, base names carry no separator or '..'); the refusal loop tests every source directory against itself "
+                "and all ancestors after normalisation and before any mutating call. Being per-call safety facts, they hold at every prefix of a failing run; no fault is injected. "
+                "Symlink resolution and library behaviour are trusted. 9 sandboxed end-to-end runs under an audit hook stand in for the composition (not counted).",
+        "note": "Syntactic path algebra, not an SMT proof; component contracts assumed.",
+    },
 }
 _NB = "no obligations built yet for this property in the current commit (planned in DESIGN.md section 6; technique not switched)"
-NOT_APPLICABLE = {p: _NB for p in ["C09", "C11", "C12", "C13", "C16", "C17", "C18", "C19", "C20"]}
+NOT_APPLICABLE = {p: _NB for p in ["C09", "C11", "C12", "C13", "C16", "C17", "C18", "C20"]}
